@@ -77,6 +77,12 @@ impl Num for BigDecimal {
                 // split into leading and trailing digits
                 let (lead, trail) = (&base_part[..loc], &base_part[loc + 1..]);
 
+                // a sign is only valid at the start of the number, not after the decimal point
+                if trail.starts_with(&['+', '-'][..]) {
+                    return Err(ParseBigDecimalError::Other(
+                        format!("Unexpected sign after decimal point in '{}'", s)));
+                }
+
                 digit_buffer.reserve(lead.len() + trail.len());
                 // copy all leading characters into 'digits' string
                 digit_buffer.push_str(lead);
